@@ -106,6 +106,9 @@ func (task *Task) IOContext() (out app.IOContext) {
 
 // Close mark task as done and close input data
 func (task *Task) Close() (err error) {
+	// the task's own scope is closed first: its close events travel up the event scopes of the scopes the task was
+	// started in, and those stay open only as long as the task has not signed off at the manager's root scope
+	err = task.ctx.Scope().Close()
 	task.wg.Done()
 	if task.closeCB != nil {
 		task.closeCB()
@@ -115,7 +118,7 @@ func (task *Task) Close() (err error) {
 	} else {
 		task.statusBroadcast.Printf("\n [%s]... %s", task.FullName(), task.status)
 	}
-	return task.ctx.Scope().Close()
+	return err
 }
 
 // Wait for task finish
